@@ -21,6 +21,19 @@ Fixpoint nan_free (v : val) : bool :=
   | _ => true
   end.
 
+(* integers that `as f64` converts exactly: beyond 2^53 `==` between integers and floats is not transitive
+   (finding C14e), so such integers are excluded where keys must form an equivalence *)
+Definition num_exact (n : num) : bool :=
+  match n with I z => (-9007199254740992 <=? z) && (z <=? 9007199254740992) | F _ => true end.
+
+(* a key (or part of one) without NaN and with exactly convertible integers *)
+Fixpoint kfine (v : val) : bool :=
+  match v with
+  | VNum n => num_ok n && num_exact n
+  | VList l | VTuple l => (fix all (l : list val) := match l with [] => true | x :: r => kfine x && all r end) l
+  | _ => true
+  end.
+
 (* ------------------------------------------------------------------ (1) map order *)
 
 Inductive mop :=
@@ -115,7 +128,8 @@ Section MapOrderModel.
     end.
 End MapOrderModel.
 
-(* the hash respects equality on a universe of keys (fails for 1 / 1.0: finding C14a) *)
+(* the hash respects equality on a universe of keys (true of every universe since the fix of C14a:
+   EqProofs.hash_ok_all) *)
 Definition hash_ok_on (U : val -> Prop) : Prop :=
   forall a b, U a -> U b -> key_eq a b = true -> hstream_eqb (hstream a) (hstream b) = true.
 
